@@ -189,6 +189,19 @@ claim("C09", "other",
       "call-graph reachability + panic-site inventory over MIR + mechanical guard re-verification on extracted path conditions",
       "DESIGN.md §3 C09, §2.6")
 
+claim("C19", "other",
+      "Decided on the coroutine bodies of the server (mir_built of the async fns): the gossip loop returns Err only when "
+      "select branch 0 (transport.recv) yielded Err and Ok only on Shutdown / closed command channel (no result of "
+      "handle_message/gossip reaches a return; every return of a gossip round passes the liveness update); receive_one's "
+      "classification table (decode error and transient io error -> Ok(None), other io errors -> Err); no await point and no "
+      "transport/gossip call between the first use of a MutexGuard<Chitchat> and its real (non-moved) drop, in all four "
+      "coroutines; the spawned task publishes Some(status) after run() on every returning path and a closed channel is "
+      "reported as 'panicked'; panic inventory of the send/gossip path with the C09 discharge table.",
+      "NOT decided: that later rounds are not stalled (tokio fairness, Interval behaviour), real UDP behaviour, shutdown "
+      "latency. Assumes tokio::select! numbers branches in source order.",
+      "path tables over coroutine MIR (await loops cut) + event-order (typestate) rule for the mutex guard + panic inventory",
+      "DESIGN.md §3 C19")
+
 ALL = ["C%02d" % i for i in range(1, 21)]
 PENDING_REASON = "check under construction in this session (rules designed in DESIGN.md §3, not yet armed)"
 
